@@ -100,7 +100,7 @@ class Universe:
         kind = self.rng.choice(getattr(self, "kinds", ("str", "str", "Path", "file", "bytesio", "buffered")))
         n = len(self.contents.by_tok[tok])
         off = self.rng.choice([0, 0, 1, n // 2, n])
-        return ("ok", tok, kind, off if kind in ("file", "bytesio", "buffered") else 0)
+        return ("ok", tok, kind, off if kind in ("file", "bytesio", "buffered", "gzip", "stalename") else 0)
 
     def data_any(self):
         r = self.rng.random()
